@@ -120,4 +120,35 @@ PROPS = {
                    'Trait impl `impl Table for DisplacedTable` emitted as inherent impl (R-INHERENT).',
         assumptions=['SortedWritesTable, Rows, ShardedHashTable, rehash, remove_stale: assumed (unsafe, hashbrown)'],
     ),
+    'C01': dict(
+        units=['uf', 'merge', 'disp', 'driver'],
+        kani_quick=[],
+        kani_thorough=[],
+        design_ref='DESIGN.md section 4 (U-UF, U-MIN, U-DISP, U-REBUILD) and section 5 C01',
+        level_text='Unbounded proof (Verus) of the kernel of congruence closure on the real code: (uf) the union-find realises exactly the partition generated '
+                   'by the unions performed, with the minimum id as representative, and path compression never changes it; (merge) an FD conflict on a constructor '
+                   '(UnionId merge, container merge) stages exactly the union of the two ids and keeps the id the union-find will choose - lemma '
+                   'lemma_unionid_matches_union_find ties the two contracts; (disp) a staged union row reaches the union-find unchanged, DisplacedTable reports the canonical '
+                   'id of every id (get_row_column col 1 = root) and records exactly the displaced id; (driver) rebuild runs to the fixpoint signalled by container rebuild, '
+                   'table rebuild and row refresh whenever the union-find grew, on every exit path. "No equality is invented" is proved at the union-find level; '
+                   '"none that follows is missed" is proved modulo the per-pass rebuild contract (Canonicalizer / SortedWritesTable::do_rebuild), which is assumed.',
+        level_note='Trusted: the per-pass rebuild contract of core-relations (apply_rebuild rewrites every row to canonical ids and merges congruent rows), '
+                   'plus the trusted bases of C17, C05, C16, C04.',
+        assumptions=['one apply_rebuild pass canonicalises rows and merges congruent ones: assumed (unsafe row buffers, hashbrown)'],
+    ),
+    'C14': dict(
+        units=['cont', 'merge', 'driver'],
+        kani_quick=[],
+        kani_thorough=[],
+        design_ref='DESIGN.md section 4 (U-CONT, U-MIN, U-REBUILD) and section 5 C14',
+        level_text='Unbounded proof (Verus) on the real code of: (cont) PairContainer/VecContainer::rebuild_contents rebuild every element flagged for rebuild through the '
+                   'rebuilder and return false only if nothing was modified (the trait obligation); ContainerValues::expand_dirty_id_closure returns a superset of the dirty ids '
+                   'that is CLOSED under "is directly contained in" for all container types and nesting depths and raises `changed` whenever it adds one; '
+                   '(merge) the container merge closure of register_container_ty keeps min(old,new) and stages exactly that union; (driver) every rebuild pass rebuilds containers '
+                   'before tables, refreshes rows with exactly that pass\'s dirty ids and timestamp, and stops only when container rebuild, table rebuild and refresh all report no change. '
+                   'The container environments themselves (DashMap hash-consing, apply_rebuild_*, val_index maintenance) and Set/Map/MultiSet rebuild_contents are NOT covered.',
+        level_note='Trusted: ValueRebuilder::rebuild_slice default body (iter_mut; assumed), IndexSet as a set, DynamicContainerEnv::extend_containers_containing adds exactly the direct '
+                   'parents recorded in val_index, DenseIdMap::iter; rewrites R-INTOVEC, R-ITER, R-AUTOTRAIT (dyn T + Send + Sync -> dyn T), R-INHERENT; the Database contracts of C04.',
+        assumptions=['ContainerEnv (DashMap, trait objects) and refresh_rows_for_values (hashbrown index) assumed', 'termination of the closure loop not claimed'],
+    ),
 }
